@@ -1,31 +1,57 @@
 (* C15: what holds when Shutdown returns nil; every started handler is answered on the guarded schedules, and the two
    schedules on which it is not; Done; idle connections. *)
 From Coq Require Import List ZArith Bool Arith Lia ZifyBool ZifyNat.
-From FH Require Import Model.Shutdown Proof.ShutdownProof.
+From FH Require Import Model.Shutdown Proof.ShutdownProof Proof.ShutdownReuse.
 Import ListNotations.
 Open Scope Z_scope.
 
-(* ---- Shutdown returned nil ---------------------------------------------------------------------------------------- *)
-Lemma returned_nil cf s : reach cf s -> sd s = SReturnedNil ->
+(* ---- a call of Shutdown returned nil ---------------------------------------------------------------------------------------- *)
+(* No call is running, no timed-out call is pending, no listener registered since: everything is at rest. *)
+Lemma at_rest_untainted cf s : reach cf s -> sd_running s = false -> tainted (dn s) = false -> Forall (fun lp => inln lp = false) (loops s) ->
   Forall (fun r => pc r = CClosed) (conns s) /\ Forall (fun lp => lrunning lp = false /\ lnopen lp = false) (loops s) /\
   n_handlers s = 0 /\ open s = 0 /\ serving s = 0 /\ stop s = false.
 Proof.
-  intros R Hs. pose proof (inv_reach _ _ R) as I. destruct (i_ret _ I Hs) as [Hc Hl].
-  assert (Hln : Forall (fun lp => lnopen lp = false) (loops s)).
-  { destruct (loops s) eqn:El; [constructor|]. rewrite <- El. apply (i_ln _ I); [rewrite Hs; reflexivity|congruence]. }
-  split; [exact Hc|]. split; [|split; [|split; [|split]]].
-  - rewrite Forall_forall in *. intros lp Hin. split; auto.
+  intros R H1 H2 H3. pose proof (inv_reach _ _ R) as I. destruct (d_rest _ (dinv_reach _ _ R) H1 H2 H3) as [Hc Hl].
+  split; [exact Hc|]. split; [exact Hl|]. split; [|split; [|split]].
   - unfold n_handlers. apply sumf_zero_all_conv. intros r Hin. rewrite Forall_forall in Hc. unfold in_handler. rewrite (Hc _ Hin). reflexivity.
   - rewrite (i_open _ I). apply sumf_zero_all_conv. intros r Hin. rewrite Forall_forall in Hc. unfold cnt_open. rewrite (Hc _ Hin). reflexivity.
-  - rewrite (i_serving _ I). apply sumf_zero_all_conv. intros lp Hin. rewrite Forall_forall in Hl. rewrite (Hl _ Hin). reflexivity.
-  - rewrite (i_stop _ I), Hs. reflexivity.
+  - rewrite (i_serving _ I). apply sumf_zero_all_conv. intros lp Hin. rewrite Forall_forall in Hl. destruct (Hl _ Hin) as [H _]. rewrite H. reflexivity.
+  - rewrite (i_stop _ I). rewrite <- sd_running_active. exact H1.
 Qed.
 
-(* ---- Done ------------------------------------------------------------------------------------------------------------- *)
-Lemma done_closed cf s : reach cf s -> past_close_done (sd s) = true \/ (sd s = SReturnedNil /\ loops s <> []) -> doneClosed s = true.
-Proof. intros R. exact (i_done _ (inv_reach _ _ R)). Qed.
+(* these premises hold at the moment a call returns nil - through its loop always, through the `s.ln == nil` shortcut unless a timed-out call is pending *)
+Lemma return_through_loop cf s s' : reach cf s -> step cf s LReadOpen = Some s' -> sd s' = SReturnedNil ->
+  sd_running s' = false /\ tainted (dn s') = false /\ Forall (fun lp => inln lp = false) (loops s').
+Proof.
+  intros R Hs Hr. pose proof (inv_reach _ _ R) as I. cbn [step] in Hs. destruct (sd s) eqn:Es; try discriminate.
+  destruct (open s =? 0); injection Hs as <-; cbn in Hr; try discriminate. cbn. repeat split.
+  eapply Forall_impl; [|apply (i_ln _ I); rewrite Es; reflexivity]. intros lp [_ H]. exact H.
+Qed.
 
-(* a handler that runs while Shutdown is past close(s.done) sees a closed channel; the stop flag is what the loop checks *)
+Lemma return_through_shortcut cf s s' : step cf s LSetStop = Some s' -> sd s' = SReturnedNil ->
+  sd_running s' = false /\ tainted (dn s') = tainted (dn s) /\ Forall (fun lp => inln lp = false) (loops s').
+Proof.
+  intros Hs Hr. cbn [step] in Hs. destruct (sd_running s); [discriminate|]. destruct (existsb inln (loops s)) eqn:Ex; injection Hs as <-; cbn in Hr; try discriminate.
+  cbn. repeat split. apply Forall_forall. intros lp Hin. destruct (inln lp) eqn:E; [|reflexivity].
+  assert (existsb inln (loops s) = true) by (apply existsb_exists; exists lp; auto). congruence.
+Qed.
+
+(* ---- Done --------------------------------------------------------------------------------------------------------------- *)
+(* In EVERY Serve / Shutdown cycle: once a call is past close(s.done) - and also after it gave up - the channel ctx.Done() gave to any
+   handler that is running has been closed. *)
+Lemma done_closed cf s : reach cf s -> past_close_done (sd s) = true ->
+  Forall (fun r => pc r = CHandler -> exists ch, cdone r = Some ch /\ chan_closed (dn s) ch = true) (conns s).
+Proof.
+  intros R Hp. pose proof (dinv_reach _ _ R) as D. pose proof (d_pcd _ D Hp) as Hf. destruct (d_flag _ D Hf) as (ch0 & Hd & Hc0).
+  eapply Forall_impl; [|exact (d_cap _ D)]. intros r Hr Hh. destruct (Hr Hh) as (ch & Hc & [Ho|Ho]); exists ch; split; auto. congruence.
+Qed.
+
+(* a handler never gets a nil channel *)
+Lemma done_not_nil cf s : reach cf s -> Forall (fun r => pc r = CHandler -> cdone r <> None) (conns s).
+Proof.
+  intros R. eapply Forall_impl; [|exact (d_cap _ (dinv_reach _ _ R))]. intros r Hr Hh. destruct (Hr Hh) as (ch & Hc & _). congruence.
+Qed.
+
 Lemma stop_flag cf s : reach cf s -> stop s = sd_active (sd s).
 Proof. intros R. exact (i_stop _ (inv_reach _ _ R)). Qed.
 
@@ -44,7 +70,7 @@ Record cinv (p : spc) (r : conn) : Prop := mkCI {
   c_lost : lost r = 0;
   (* a connection closed by closeIdleConns: nothing in the writer, and its goroutine can only leave *)
   c_closed : srvClosed r = true ->
-               inmap r = false /\ unflushed r = 0 /\ closed_ok_pc (pc r) = true /\ p <> SNotCalled /\
+               inmap r = false /\ unflushed r = 0 /\ closed_ok_pc (pc r) = true /\ (sd_active p = true \/ pc r = CClosed) /\
                (match pc r with CGotByte | CActive | CStopSeen | CExiting | CUnreg | CClosed => True | _ => buffered r = 0 end);
   (* a connection marked idle (or fresh): nothing in the writer, nothing buffered unless it has just been read *)
   c_marked : inmap r = true -> ival r <> 0 ->
@@ -54,7 +80,7 @@ Record cinv (p : spc) (r : conn) : Prop := mkCI {
   c_track : match pc r with CAccepted | CQueued | CUnreg | CClosed => True | _ => inmap r = false -> srvClosed r = true end
 }.
 
-Definition sinv (s : st) : Prop := sd s <> SReturnedErr -> Forall (cinv (sd s)) (conns s).
+Definition sinv (s : st) : Prop := failed (dn s) = false -> Forall (cinv (sd s)) (conns s).
 
 Ltac gcase F W Hstep c :=
   let r := fresh "r" in let Hn := fresh "Hn" in
@@ -62,31 +88,41 @@ Ltac gcase F W Hstep c :=
   let Hg := fresh "Hg" in let Hw := fresh "Hw" in
   pose proof (Forall_nth _ _ _ _ F Hn) as Hg; pose proof (Forall_nth _ _ _ _ W Hn) as Hw;
   destruct Hg as [G1 G2 G3 G4 G5 G6]; unfold cwf in Hw;
-  destruct r as [p lid im iv ts sc cc infl buf unf hjk stt del lst lsc abn];
+  destruct r as [p lid im iv ts sc cc infl buf unf hjk stt del lst lsc abn cdn];
   unfold set_pc, flush_exit, exit_loop in Hstep;
-  cbn [pc loopid inmap ival tstart srvClosed cliClosed inflight buffered unflushed hijack started delivered lost lostc abandoned] in *.
+  cbn [pc loopid inmap ival tstart srvClosed cliClosed inflight buffered unflushed hijack started delivered lost lostc abandoned cdone] in *.
 
 Ltac gfin F := unfold set_conns; cbn [conns sd]; apply Forall_upd; [exact F|];
   constructor; unfold inprog, closed_ok_pc, idle_marked_pc in *;
-  cbn [pc loopid inmap ival tstart srvClosed cliClosed inflight buffered unflushed hijack started delivered lost lostc abandoned] in *;
+  cbn [pc loopid inmap ival tstart srvClosed cliClosed inflight buffered unflushed hijack started delivered lost lostc abandoned cdone] in *;
   repeat match goal with |- context[if ?b then _ else _] => destruct b eqn:? end;
   try lia; try congruence; try (intros; try discriminate; intuition (try lia; try congruence; try discriminate)).
 
-Lemma cinv_mono p p' r : (p <> SNotCalled -> p' <> SNotCalled) -> cinv p r -> cinv p' r.
-Proof. intros H [G1 G2 G3 G4 G5 G6]. constructor; auto. intros Hs. destruct (G2 Hs) as (A & B & C & D & E). repeat split; auto. Qed.
+Lemma cinv_mono p p' r : (sd_active p = true -> sd_active p' = true) -> cinv p r -> cinv p' r.
+Proof. intros H [G1 G2 G3 G4 G5 G6]. constructor; auto. intros Hs. destruct (G2 Hs) as (A & B & C & [D|D] & E); repeat split; auto. Qed.
+
+Lemma cinv_closed p p' r : pc r = CClosed -> cinv p r -> cinv p' r.
+Proof. intros H [G1 G2 G3 G4 G5 G6]. constructor; auto. intros Hs. destruct (G2 Hs) as (A & B & C & D & E); repeat split; auto. Qed.
+
+(* `failed` is only ever set *)
+Lemma failed_mono cf s l s' : step cf s l = Some s' -> failed (dn s') = false -> failed (dn s) = false.
+Proof.
+  intros Hstep Hf. destruct l; cbn [step] in Hstep; unfold set_conns, set_sd in Hstep;
+    repeat match type of Hstep with
+    | context[match ?x with _ => _ end] => destruct x eqn:?; try discriminate Hstep
+    | context[if ?x then _ else _] => destruct x eqn:?; try discriminate Hstep
+    end; injection Hstep as <-; cbn in Hf; try exact Hf; try discriminate Hf.
+  - unfold serve_done in Hf. destruct (done (dn s)); exact Hf.
+  - unfold close_done in Hf. destruct (done (dn s)); [destruct (dflag (dn s))|]; exact Hf.
+Qed.
 
 Lemma sinv_step cf s l s' : inv s -> sinv s -> step cf s l = Some s' -> sinv s'.
 Proof.
   intros I S Hstep Hne.
-  assert (Hne0 : sd s <> SReturnedErr).
-  { intros E. apply Hne. destruct l; cbn [step] in Hstep; unfold shutdown_begun in Hstep; rewrite ?E in Hstep; try discriminate Hstep;
-    repeat match type of Hstep with
-    | context[match ?x with _ => _ end] => destruct x eqn:?; try discriminate Hstep
-    | context[if ?x then _ else _] => destruct x eqn:?; try discriminate Hstep
-    end; injection Hstep as <-; cbn; first [exact E | reflexivity]. }
+  assert (Hne0 : failed (dn s) = false) by exact (failed_mono _ _ _ _ Hstep Hne).
   pose proof (S Hne0) as F. pose proof (i_wf _ I) as W. clear S.
   destruct l; cbn [step] in Hstep.
-  - destruct (shutdown_begun s); [discriminate|]. injection Hstep as <-. exact F.
+  - destruct (sd_running s); [discriminate|]. injection Hstep as <-. exact F.
   - destruct (nth_error (loops s) k) as [lp|]; [|discriminate]. destruct (_ && _); [|discriminate]. injection Hstep as <-. cbn [conns sd].
     apply Forall_app. split; [exact F|]. constructor; [|constructor]. constructor; cbn; try lia; try discriminate; auto.
   - gcase F W Hstep c. destruct p; try discriminate Hstep. destruct (nth_error (loops s) lid); [|discriminate]. injection Hstep as <-. gfin F.
@@ -101,8 +137,7 @@ Proof.
     destruct sc.
     + destruct (G2 eq_refl) as (A & B & C & D & E).
       assert (Hst : stop s = true).
-      { rewrite (i_stop _ I). destruct (sd s) eqn:Es; try reflexivity; try congruence.
-        exfalso. destruct (i_ret _ I Es) as [Hc _]. pose proof (Forall_nth _ _ _ _ Hc Hn) as Hp. discriminate Hp. }
+      { rewrite (i_stop _ I). destruct D as [D|D]; [exact D|discriminate D]. }
       rewrite Hst in Hstep. injection Hstep as <-. gfin F.
     + destruct (stop s); injection Hstep as <-; gfin F.
   - (* LLookup *) gcase F W Hstep c. destruct p; try discriminate Hstep. destruct im; injection Hstep as <-; gfin F.
@@ -124,26 +159,31 @@ Proof.
   - gcase F W Hstep c. destruct p; try discriminate Hstep. injection Hstep as <-. gfin F.
   - gcase F W Hstep c. destruct p; try discriminate Hstep. injection Hstep as <-. cbn [conns sd]. apply Forall_upd; [exact F|].
     constructor; unfold inprog, closed_ok_pc, idle_marked_pc in *; cbn in *; try lia; try congruence; auto; intuition (try lia; try congruence; try discriminate).
-  - (* LSetStop *) destruct (sd s) eqn:Es; try discriminate Hstep. destruct (loops s); injection Hstep as <-; cbn [conns sd set_sd];
-      (eapply Forall_impl; [|exact F]; intros r; apply cinv_mono; intros _; discriminate).
-  - destruct (sd s) eqn:Es; try discriminate Hstep. injection Hstep as <-. cbn [conns sd]. eapply Forall_impl; [|exact F]. intros r; apply cinv_mono; intros _; discriminate.
-  - destruct (sd s) eqn:Es; try discriminate Hstep. injection Hstep as <-. cbn [conns sd]. eapply Forall_impl; [|exact F]. intros r; apply cinv_mono; intros _; discriminate.
+  - (* LSetStop *) destruct (sd_running s) eqn:Er; [discriminate|]. rewrite sd_running_active in Er.
+    destruct (existsb inln (loops s)); injection Hstep as <-; cbn [conns sd set_sd];
+      (eapply Forall_impl; [|exact F]; intros r; apply cinv_mono; intros Ha; congruence).
+  - destruct (sd s) eqn:Es; try discriminate Hstep. injection Hstep as <-. cbn [conns sd]. eapply Forall_impl; [|exact F]. intros r; apply cinv_mono; intros _; reflexivity.
+  - destruct (sd s) eqn:Es; try discriminate Hstep. injection Hstep as <-. cbn [conns sd]. eapply Forall_impl; [|exact F]. intros r; apply cinv_mono; intros _; reflexivity.
   - (* LCloseIdle *)
     destruct (sd s) eqn:Es; try discriminate Hstep. injection Hstep as <-. cbn [conns sd].
     apply Forall_forall. intros r' Hin. apply in_map_iff in Hin as (r & <- & Hr). rewrite Forall_forall in F. pose proof (F _ Hr) as HF.
-    apply (cinv_mono SLoop SReadServing) in HF; [|intros _; discriminate]. destruct HF as [G1 G2 G3 G4 G5 G6].
+    apply (cinv_mono SLoop SReadServing) in HF; [|intros _; reflexivity]. destruct HF as [G1 G2 G3 G4 G5 G6].
     unfold close_if_idle. destruct (inmap r && negb (ival r =? 0) && (ival r <=? now s)) eqn:E; [|constructor; auto].
     apply andb_true_iff in E as [E E3]. apply andb_true_iff in E as [E1 E2]. apply negb_true_iff in E2.
     assert (Hiv : ival r <> 0) by lia. destruct (G3 E1 Hiv) as (M1 & M2 & M3). unfold idle_marked_pc in M1.
     constructor; cbn [pc loopid inmap ival tstart srvClosed cliClosed inflight buffered unflushed hijack started delivered lost lostc abandoned]; auto; try discriminate.
     + intros _. split; [reflexivity|]. split; [exact M2|]. split; [unfold closed_ok_pc; destruct (pc r); try discriminate M1; reflexivity|].
-      split; [discriminate|]. destruct (pc r); try discriminate M1; auto.
+      split; [left; reflexivity|]. destruct (pc r); try discriminate M1; auto.
     + destruct (pc r); try discriminate M1; auto.
     + destruct (pc r); auto.
-  - destruct (sd s) eqn:Es; try discriminate Hstep. injection Hstep as <-. cbn [conns sd set_sd]. eapply Forall_impl; [|exact F]. intros r; apply cinv_mono; intros _; destruct (serving s =? 0); discriminate.
-  - destruct (sd s) eqn:Es; try discriminate Hstep. destruct (open s =? 0); injection Hstep as <-; cbn [conns sd set_sd]; (eapply Forall_impl; [|exact F]; intros r; apply cinv_mono; intros _; discriminate).
-  - destruct (sd s) eqn:Es; try discriminate Hstep. injection Hstep as <-. cbn [conns sd set_sd]. eapply Forall_impl; [|exact F]. intros r; apply cinv_mono; intros _; discriminate.
-  - destruct (sd s) eqn:Es; try discriminate Hstep. injection Hstep as <-. cbn [sd] in Hne. congruence.
+  - destruct (sd s) eqn:Es; try discriminate Hstep. injection Hstep as <-. cbn [conns sd set_sd]. eapply Forall_impl; [|exact F]. intros r; apply cinv_mono; intros _; destruct (serving s =? 0); reflexivity.
+  - destruct (sd s) eqn:Es; try discriminate Hstep. destruct (open s =? 0) eqn:E0; injection Hstep as <-; cbn [conns sd set_sd].
+    + destruct (rest_from_counters s I (i_ro _ I Es) ltac:(lia)) as [Hc _].
+      apply Forall_forall. intros r Hr. rewrite Forall_forall in F, Hc. exact (cinv_closed _ _ r (Hc _ Hr) (F _ Hr)).
+    + eapply Forall_impl; [|exact F]. intros r; apply cinv_mono; intros _; reflexivity.
+
+  - destruct (sd s) eqn:Es; try discriminate Hstep. injection Hstep as <-. cbn [conns sd set_sd]. eapply Forall_impl; [|exact F]. intros r; apply cinv_mono; intros _; reflexivity.
+  - destruct (sd s) eqn:Es; try discriminate Hstep. injection Hstep as <-. cbn in Hne. discriminate Hne.
   - (* LSend *) gcase F W Hstep c. destruct cc; [discriminate|]. injection Hstep as <-. gfin F.
   - gcase F W Hstep c. injection Hstep as <-. gfin F.
   - destruct (d <? 0); [discriminate|]. injection Hstep as <-. exact F.
@@ -156,11 +196,23 @@ Qed.
 
 (* As long as Shutdown has not returned an error, no response of a started handler is made undeliverable by the server - for every
    interleaving, with pipelining, with requests arriving while idle connections are being closed ... *)
-Lemma nothing_lost cf s : reach cf s -> sd s <> SReturnedErr -> Forall (fun r => lost r = 0) (conns s).
+Lemma taint_failed cf s : reach cf s -> tainted (dn s) = true -> failed (dn s) = true.
+Proof.
+  induction 1 as [|s l s' R IH Hstep]; [discriminate|]. intros Ht.
+  destruct l; cbn [step] in Hstep; unfold set_conns, set_sd in Hstep;
+    repeat match type of Hstep with
+    | context[match ?x with _ => _ end] => destruct x eqn:?; try discriminate Hstep
+    | context[if ?x then _ else _] => destruct x eqn:?; try discriminate Hstep
+    end; injection Hstep as <-; cbn in Ht |- *; try (apply IH; exact Ht); try discriminate Ht; try reflexivity.
+  - unfold serve_done in *. destruct (done (dn s)); cbn in *; apply IH; exact Ht.
+  - unfold close_done in *. destruct (done (dn s)); [destruct (dflag (dn s))|]; cbn in *; apply IH; exact Ht.
+Qed.
+
+Lemma nothing_lost cf s : reach cf s -> failed (dn s) = false -> Forall (fun r => lost r = 0) (conns s).
 Proof. intros R Hne. eapply Forall_impl; [|exact (sinv_reach _ _ R Hne)]. intros r H. apply H. Qed.
 
 (* ... so when a connection is done, every handler started on it has its response at the client, unless the client went away *)
-Lemma started_handlers_answered cf s : reach cf s -> sd s <> SReturnedErr ->
+Lemma started_handlers_answered cf s : reach cf s -> failed (dn s) = false ->
   Forall (fun r => pc r = CClosed -> started r = delivered r + lostc r) (conns s).
 Proof.
   intros R Hne. pose proof (sinv_reach _ _ R Hne) as F. pose proof (accounting _ _ R) as W.
@@ -168,13 +220,15 @@ Proof.
   unfold inprog in Ha. rewrite Hp in Ha, G4. lia.
 Qed.
 
-Lemma answered_when_returned cf s : reach cf s -> sd s = SReturnedNil ->
+Lemma answered_when_returned cf s : reach cf s -> failed (dn s) = false ->
+  sd_running s = false -> Forall (fun lp => inln lp = false) (loops s) ->
   Forall (fun r => started r = delivered r + lostc r /\ lost r = 0) (conns s).
 Proof.
-  intros R Hs. destruct (returned_nil _ _ R Hs) as (Hc & _).
-  assert (Hne : sd s <> SReturnedErr) by congruence.
-  pose proof (started_handlers_answered _ _ R Hne) as H. pose proof (nothing_lost _ _ R Hne) as HL. rewrite Forall_forall in *. intros r Hr.
-  split; [exact (H _ Hr (Hc _ Hr))|exact (HL _ Hr)].
+  intros R Hf Hr Hl.
+  assert (Ht : tainted (dn s) = false). { destruct (tainted (dn s)) eqn:E; [|reflexivity]. pose proof (taint_failed _ _ R E). congruence. }
+  destruct (at_rest_untainted _ _ R Hr Ht Hl) as (Hc & _).
+  pose proof (started_handlers_answered _ _ R Hf) as H. pose proof (nothing_lost _ _ R Hf) as HL. rewrite Forall_forall in *. intros r Hr0.
+  split; [exact (H _ Hr0 (Hc _ Hr0))|exact (HL _ Hr0)].
 Qed.
 
 (* the schedule of the repaired finding shutdown-drops-unflushed-pipelined-response (66dbd41): two requests in one segment, Shutdown while
@@ -272,7 +326,7 @@ Lemma graceful_example :
   | Some s1 =>
       match run (mkCfg false false) s1 graceful_shutdown with
       | Some s => sd s = SReturnedNil /\ map started (conns s) = [1; 1; 1] /\ map delivered (conns s) = [1; 1; 1]
-                  /\ map srvClosed (conns s) = [true; true; false] /\ n_lost s = 0 /\ doneClosed s = true
+                  /\ map srvClosed (conns s) = [true; true; false] /\ n_lost s = 0 /\ closedch (dn s) = [O] /\ done (dn s) = None
       | None => False
       end
   | None => False
@@ -282,19 +336,19 @@ Proof. vm_compute. repeat split; reflexivity. Qed.
 (* ---- statements in the vocabulary of Spec/ShutdownSpec.v ------------------------------------------------------------------------- *)
 From FH Require Import Spec.ShutdownSpec.
 
-Lemma returns_at_rest cf s : reach cf s -> sd s = SReturnedNil -> at_rest s.
-Proof. exact (returned_nil cf s). Qed.
+Lemma returns_at_rest cf s : reach cf s -> just_shut_down s -> at_rest s.
+Proof. intros R (A & B & C). exact (at_rest_untainted cf s R A B C). Qed.
 
-Lemma done_closed' cf s : reach cf s -> done_must_be_closed s -> doneClosed s = true.
+Lemma done_closed' cf s : reach cf s -> shutdown_past_close_done s -> Forall (done_closed_for s) (conns s).
 Proof.
-  intros R H. apply (done_closed _ _ R). unfold done_must_be_closed in H. destruct (sd s) eqn:E; try contradiction; cbn; auto.
+  intros R H. apply (done_closed _ _ R). unfold shutdown_past_close_done in H. destruct (sd s); try contradiction; reflexivity.
 Qed.
 
-Lemma answered_when_done cf s : reach cf s -> sd s <> SReturnedErr -> Forall (fun r => pc r = CClosed -> answered r) (conns s).
+Lemma answered_when_done cf s : reach cf s -> failed (dn s) = false -> Forall (fun r => pc r = CClosed -> answered r) (conns s).
 Proof. exact (started_handlers_answered cf s). Qed.
 
-Lemma answered_at_return cf s : reach cf s -> sd s = SReturnedNil -> Forall (fun r => answered r /\ lost r = 0) (conns s).
-Proof. exact (answered_when_returned cf s). Qed.
+Lemma answered_at_return cf s : reach cf s -> failed (dn s) = false -> just_shut_down s -> Forall (fun r => answered r /\ lost r = 0) (conns s).
+Proof. intros R Hf (A & _ & C). exact (answered_when_returned cf s R Hf A C). Qed.
 
 (* once Shutdown has given up the guarantee is gone: the stop flag is reset, a connection closed as idle with a request in hand serves it *)
 Definition gave_up_trace : list label :=
@@ -321,3 +375,43 @@ Proof.
   cbn [step] in Hs. destruct (sd s); try discriminate. injection Hs as <-. cbn [conns] in Hn'. rewrite nth_error_map, Hn in Hn'. injection Hn' as <-.
   unfold close_if_idle. destruct (_ && _); cbn; exact Hb.
 Qed.
+
+(* ---- reuse: two Serve / Shutdown cycles on one Server, then a timed-out call and a call after it ------------------------------------ *)
+Definition one_request (c k : nat) : list label :=
+  [LAccept k; LOpenInc c; LSend c; LRegIdle c; LSetDeadline c; LPeekOk c; LStore0 c; LLoadStop c; LReadReq c].
+Definition begin_shutdown (k : nat) : list label :=
+  [LSetStop; LCloseListeners; LAcceptFail k; LCloseDone; LCloseIdle; LReadServing; LReadOpen].
+Definition answer_and_leave (c : nat) : list label :=
+  [LHandlerEnd c; LWrite c false; LStoreT c; LCheckStop c; LUnregIdle c; LOpenDec c].
+Definition next_pass : list label := [LTicker; LCloseIdle; LReadServing; LReadOpen].
+
+Definition cycle1 : list label := [LServeStart] ++ one_request 0 0 ++ begin_shutdown 0 ++ answer_and_leave 0 ++ next_pass.
+Definition cycle2_until_done_closed : list label := [LServeStart] ++ one_request 1 1 ++ begin_shutdown 1.
+
+Lemma reuse_example :
+  match run (mkCfg false false) init cycle1 with
+  | Some s1 =>
+      (* first cycle over: returned nil, s.done = nil, s.doneClosed = false, channel 0 closed *)
+      sd s1 = SReturnedNil /\ done (dn s1) = None /\ dflag (dn s1) = false /\ closedch (dn s1) = [O] /\
+      match run (mkCfg false false) s1 cycle2_until_done_closed with
+      | Some s2 =>
+          (* second cycle: Serve made a fresh channel, the handler in flight holds it, this Shutdown has closed it *)
+          sd s2 = SWait /\ map cdone (conns s2) = [Some O; Some 1%nat] /\ n_handlers s2 = 1 /\
+          done (dn s2) = Some 1%nat /\ chan_closed (dn s2) 1 = true /\
+          (* the context expires; a further Shutdown call takes the `s.ln == nil` shortcut and returns nil at once although the handler
+             still runs ("When ShutdownWithContext returns errors, any operation to the Server is unavailable"): the pending failure is
+             what `just_shut_down` excludes; the handler's channel stays closed *)
+          match run (mkCfg false false) s2 [LCtxExpire; LSetStop] with
+          | Some s3 => sd s3 = SReturnedNil /\ tainted (dn s3) = true /\ n_handlers s3 = 1 /\ chan_closed (dn s3) 1 = true /\
+                       (* Serve once more on the tainted server: it keeps the closed channel *)
+                       match run (mkCfg false false) s3 ([LServeStart] ++ one_request 2 2) with
+                       | Some s4 => map cdone (conns s4) = [Some O; Some 1%nat; Some 1%nat] /\ chan_closed (dn s4) 1 = true
+                       | None => False
+                       end
+          | None => False
+          end
+      | None => False
+      end
+  | None => False
+  end.
+Proof. vm_compute. repeat split; reflexivity. Qed.
